@@ -638,7 +638,11 @@ def _run(mod, module_name, args, seed, t0):
         },
     }
     if not args.only:
-        _write_json(os.path.join(VERIF, "evidence", prop + ".json"), ev)
+        # evidence/ only ever describes runs against /repo itself; runs against a scratch copy (VERIF_REPO, used for the seeded
+        # changes) leave their record under .cache/
+        scratch = os.path.realpath(REPO) != os.path.realpath("/repo")
+        ev_dir = os.path.join(VERIF, ".cache", "evidence_scratch") if scratch else os.path.join(VERIF, "evidence")
+        _write_json(os.path.join(ev_dir, prop + ".json"), ev)
     print("%s tier=%s seed=%d evaluations=%d distinct_nontrivial=%d rejected=%d skipped=%d "
           "violations=%d truncated=%s wall=%.1fs"
           % (prop, tier, seed, total_eval, len(all_nt), rejected, skipped, len(best), truncated, wall))
